@@ -357,9 +357,32 @@ def r6_location_blind(run, F):
     run.floor("R6-LOCATION-BLIND", 20, "bodies of src/alpha/rebuilder.rs (23 counted)")
 
 
+def r7_nodes_as_they_are(run, F):
+    """The tree parsed back equals the original only if every node is printed as the node it is: the receiver of each
+    `.rebuild(..)` call in the rebuilder is a field, a binding or an element of the node at hand (through std accessors and
+    iterators), never the result of a function of the crate that picks another node in its place (printing the `if` inside
+    `else { if .. }` instead of the block loses the Block node, although the text still parses and means the same)."""
+    from rules import origins
+    n = 0
+    for p, b in sorted(F.lib.bodies.items()):
+        if "hir" not in b or not F.rel(b["file"]).endswith("alpha/rebuilder.rs"):
+            continue
+        for c in hirq.calls(b["hir"]):
+            if c.get("k") == "MethodCall" and c.get("name") == "rebuild":
+                n += 1
+                o = origins.origins(b["hir"], c["recv"], b.get("params", ()))
+                via = sorted(set(str(k[1]) for k in o if k[0] == "call" and str(k[1]).startswith(("alpha::", "<alpha::")) and not str(k[1]).endswith("::rebuild")))
+                if via:
+                    run.ob("R7-NODES-AS-THEY-ARE", "%s|%s" % (p.split(" as ")[0].strip("<").split("::")[-1], via[0].split("::")[-1]), False, F.where(b, c),
+                           "the node handed to rebuild() is chosen by %s instead of being the child itself: a node replaced before printing is "
+                           "missing from the tree that is parsed back" % via)
+    run.ob("R7-NODES-AS-THEY-ARE", "scan", n >= 70, "src/alpha/rebuilder.rs", "%d rebuild() call sites examined (82 counted)" % n)
+
+
 def check(run):
     F = run.facts("B")
     r6_location_blind(run, F)
+    r7_nodes_as_they_are(run, F)
     r1_spellings(run, F)
     r2_completeness(run, F)
     r3_literals(run, F)
@@ -368,6 +391,6 @@ def check(run):
     if run.tier == "thorough":
         FA = run.facts("A")
         run.key_prefix = "cfgA:"
-        for fn in (r1_spellings, r2_completeness, r3_literals, r4_indentation, r6_location_blind):
+        for fn in (r1_spellings, r2_completeness, r3_literals, r4_indentation, r6_location_blind, r7_nodes_as_they_are):
             fn(run, FA)
         run.key_prefix = ""
